@@ -1,7 +1,7 @@
 (* C18 - Gossip is bounded, processed once per agent and never self-addressed.
-   Statements only; proofs are `exact` lemmas of Gossip/GossipProofs.v. *)
+   Statements only; proofs are `exact` lemmas of Gossip/GossipProofs.v and Gossip/GossipView.v. *)
 From Coq Require Import ZArith.
-From QV Require Import Base.Util Gossip.Gossip Gossip.GossipProofs.
+From QV Require Import Base.Util Gossip.Gossip Gossip.GossipProofs Gossip.GossipView.
 
 (* (1) every hop strictly lowers the TTL; a message whose TTL is exhausted (zero OR negative) is not sent on *)
 Theorem C18_hop_lowers_ttl ttl t : send_ttl ttl = Some t -> (0 <= t < ttl)%Z.
@@ -34,6 +34,23 @@ Proof. exact (topo_update_ok t role name). Qed.
 Theorem C18_view_delete t role name : TopoOK t -> TopoOK (topo_delete t role name).
 Proof. exact (topo_delete_ok t role name). Qed.
 
+(* (6) ... and after ANY sequence of membership notifications (gossip/delegate.go applies them one after the other:
+   join / update -> Topology.Update, leave -> Topology.Delete) the peers listed for a role are exactly those that joined
+   and have not left since - [joined] adds on a join and removes on a leave - and none is listed twice *)
+Theorem C18_view_is_the_set_of_joined_peers evs role name :
+  NoDup (members (topo_run [] evs) role) /\
+  (In name (members (topo_run [] evs) role) <-> joined evs role name = true).
+Proof. exact (view_from_empty evs role name). Qed.
+Theorem C18_view_consistent_from_any_view evs t P : TopoOK t -> agree t P ->
+  TopoOK (topo_run t evs) /\ agree (topo_run t evs) (fold_left spec_step evs P).
+Proof. exact (view_consistent evs t P). Qed.
+
+Example C18_view_example :
+  members (topo_run [] [MJoin 1 10; MJoin 1 11; MJoin 2 20; MLeave 1 10; MJoin 1 11; MLeave 3 5]) 1 = [11] /\
+  joined [MJoin 1 10; MJoin 1 11; MJoin 2 20; MLeave 1 10; MJoin 1 11; MLeave 3 5] 1 11 = true /\
+  joined [MJoin 1 10; MJoin 1 11; MJoin 2 20; MLeave 1 10; MJoin 1 11; MLeave 3 5] 1 10 = false.
+Proof. repeat split; reflexivity. Qed.
+
 Example C18_premises_hold :
   let t := topo_update (topo_update (topo_update [] 1 10) 2 20) 1 11 in
   TopoOK t /\ route t 10 10 (fun _ c => hd 0 c) = [11; 20] /\ hops 10 3 = 3%nat /\ hops 10 (-5) = 0%nat /\
@@ -48,3 +65,5 @@ Print Assumptions C18_processed_at_most_once.
 Print Assumptions C18_new_batch_processed.
 Print Assumptions C18_view_update.
 Print Assumptions C18_view_delete.
+Print Assumptions C18_view_is_the_set_of_joined_peers.
+Print Assumptions C18_view_consistent_from_any_view.
